@@ -1203,6 +1203,24 @@ package proxy
 // C08 / C09: one intra-proxy receiver per peer/shard pair. A receiver is stored only when none is registered for the
 // pair (checked under the same lock), and the goroutine that ran it removes the entry only while it is still its own
 // (defect D18, fixed: a receiver that was still connecting did not count, so every reconcile tick added another one).
+// C19 (seed C19-11: the intra-proxy client TLS config built once, its error kept in a local - every retry after a
+// failed build dials in plaintext): the connection to a peer instance uses this proxy's client TLS configuration
+// whenever that configuration is enabled - dial options are never built from a nil config then.
+//@ extern pure (ShardManager).GetIntraProxyTLSConfig
+//@ extern quiet metrics.GetGRPCClientMetrics
+//@ extern quiet (ShardManager).GetProxyAddress
+//@ extern quiet grpc.NewClient
+//@ extern grpcutil.MakeDialOptions@(*intraProxyManager).ensurePeer
+//@   trusted builds a slice of dial options; writes nothing of the proxy's state (its own contract in package grpcutil says what the options contain)
+//@   assigns nothing
+//@ extern quiet (*grpc.ClientConn).Close
+//@ contract (*intraProxyManager).ensurePeer
+//@   shape sig=(m *intraProxyManager)(ctx context.Context,peerNodeName string)( *peerState, error);loops=;lits=0;fv=
+//@   props C19
+//@   requires m.peers != nil
+//@   callpre MakeDialOptions: @tls_unless_disabled: $0 != nil || !tlsOn(m.shardManager.GetIntraProxyTLSConfig())
+// (the definition of TLSConfig.IsEnabled, which is verified against the same formula in package encryption)
+//@ pred tlsOn(t encryption.TLSConfig) = (t.CertificatePath != "" && t.KeyPath != "") || t.CAServerName != ""
 //@ extern (*intraProxyManager).ensurePeer@(*intraProxyManager).ensureStream(m2, ctx, peer)
 //@   trusted dials the peer (or reuses the connection) and returns its state with all three tables allocated
 //@   ensures result1 == nil ==> result0 != nil && result0.receivers != nil && result0.recvShutdown != nil
